@@ -288,7 +288,7 @@ class Interp:
                     self.scope_insts += 1
                     self.scope_inst_of[id(scope)] = inst[0]
                     self.scope_tasks[inst[0]] = []
-                    self.emit(label, 'senter', [name, inst[0], 0 if n[0] == 'none' else 1])
+                    self.emit(label, 'senter', [name, inst[0]] + self.until_desc(n))
                     await self.block(label, body)
             except BaseException:
                 if inst[0] is not None:
@@ -327,7 +327,7 @@ class Interp:
             if t is None:
                 self.emit(label, 'unbound')
             else:
-                self.emit(label, 'cancel', [1000 + self.task_index[id(t)], t.status.value])
+                self.emit(label, 'cancel', [1000 + self.task_index[id(t)], t.status.value, s[2]])
                 t.cancel(s[2])
         elif h == 'awaittask':
             t = self.tasks.get(s[1])
@@ -335,7 +335,7 @@ class Interp:
                 self.emit(label, 'unbound')
             else:
                 v = await t
-                self.emit(label, 'taskret', [v if v is not None else 0])
+                self.emit(label, 'taskret', [1000 + self.task_index[id(t)], v if v is not None else 0])
         elif h == 'awaitscope':
             sc = self.scopes.get(s[1])
             if sc is None:
@@ -347,7 +347,7 @@ class Interp:
             if t is None:
                 self.emit(label, 'unbound')
             else:
-                self.emit(label, 'status', [t.status.value])
+                self.emit(label, 'status', [1000 + self.task_index[id(t)], t.status.value])
         elif h == 'raise':
             e = self.classes[s[1]]()
             e.verif_label = self.user_raises
@@ -377,7 +377,7 @@ class Interp:
                 finally:
                     self.emit(label, 'lexit', [s[1]])
         elif h == 'avail':
-            self.emit(label, 'avail', [1 if self.locks[s[1]].available else 0])
+            self.emit(label, 'avail', [s[1], 1 if self.locks[s[1]].available else 0])
         elif h == 'qput':
             self.emit(label, 'putreq', [s[1], s[2]])
             try:
@@ -529,6 +529,20 @@ class Interp:
             for c in coros:
                 c.close()
             _ = base
+
+    def until_desc(self, n):
+        if n[0] == 'none':
+            return [0, 0, 1]
+        if n[0] == 'delay':
+            return [1] + tpair(n[1], self.kind)
+        c = n[1]
+        if c[0] in ('after', 'moment', 'before'):
+            return [{'after': 2, 'moment': 3, 'before': 4}[c[0]]] + tpair(c[1], self.kind)
+        if c[0] == 'flag':
+            return [5, c[1], 1]
+        if c[0] == 'inv' and c[1][0] == 'flag':
+            return [6, c[1][1], 1]
+        return [9, 0, 1]
 
     def not_done(self, inst):
         return sum(1 for t in self.scope_tasks.get(inst, []) if not t.done)
